@@ -95,7 +95,8 @@ theorem fact_passes (fs : List ErrFact) (hsc : c19SideCondition fs = true) (e : 
     (he : e ∈ fs) (hfn : vecFns.contains e.fn = true) : passes e.disp = true := by
   simp only [c19SideCondition, Bool.and_eq_true, List.all_eq_true] at hsc
   have := hsc.1.1.1.1.1.1.1 e he
-  simpa [hfn] using this
+  simp only [hfn, Bool.not_true, Bool.false_or] at this
+  exact this
 
 /-- C19, build path: for EVERY sequence of operations of `writeVectorIndexes` and EVERY failing
     position, `New` returns an error. -/
